@@ -14,6 +14,14 @@ INFO = {
 }
 
 
+def _base4(v, n):
+    out = ""
+    for _ in range(n):
+        out = str(v % 4) + out
+        v //= 4
+    return out
+
+
 def queries(ctx, extra):
     qs = []
     ctx.patch_src("token.h", "extern struct tok_info\ttokInfoTable[];", "extern struct tok_info\ttokInfoTable[TK_LIMIT - TK_START + 1];",
@@ -34,4 +42,13 @@ def queries(ctx, extra):
         qs.append(Query(name="linxsep_%d" % n, harness="c07_lin.c", entry="h_linxsep", defs=["-DNTOK=%d" % n], stubs=["stubs.c", "stubs_print.c"],
                         unwind=n + 3, timeout=600, mem_gb=8, tiers=tiers, group="linearizer", flags=["--max-field-sensitivity-array-size", "200"],
                         bound="token lists of 0..%d tokens, every token tag" % n))
+    # conditional inclusion: every shape of 0..N lines (4^n shapes of length n), directive forms symbolic within the shape
+    for n in range(0, 5):      # n = 5 (1024 shapes): 60 of them gave no verdict in 300 s under full load; not part of the claim
+        for shape in range(4 ** n):
+            qs.append(Query(name="incl_if_%d_%0*d" % (n, max(n, 1), int(_base4(shape, n) or "0")), harness="c07_incl.c", entry="h_incl_if",
+                            defs=["-DNLINE=%d" % n, "-DSHAPE=%d" % shape], srcs=["fluid.c"], stubs=["stubs.c", "stubs_print.c"],
+                            unwind=2 * n + 8, timeout=300, mem_gb=4, tiers=("quick", "thorough") if n <= 3 else ("thorough",),
+                            group="conditional inclusion",
+                            bound="sources of exactly %d lines with shape %s (0 = text, 1 = #if, 2 = #endif, 3 = #elseif/#else/unknown directive; "
+                                  "first line is the last digit); asserted-or-not of every #if/#elseif and the form of every class-3 line symbolic" % (n, _base4(shape, n) or "-")))
     return qs
